@@ -128,8 +128,9 @@ func (p *Proxy) serveClients(ctx context.Context) {
 func (p *Proxy) forwardRpc(source string, rpc *goatorepo.Rpc) {
 	// Sanity check RPC first
 	if rpc.Header == nil || rpc.Header.Source != source {
+		// never forward (or crash on) what a peer sends under a false name
 		log.Warn().Msgf("Bad Rpc: %v", rpc)
-		log.Panic().Msg("TODO: handle invalid RPC here (log and ignore?)")
+		return
 	}
 
 	// Apply any sort of address translation first: this allows implementing a
